@@ -10,5 +10,5 @@ Lemma audit_classified :
   forallb class_known maprange_classes = true
   /\ N.of_nat (length maprange_classes) = maprange_count
   /\ maprange_unresolved = 0
-  /\ count_class 5 maprange_classes = 3.
+  /\ count_class 5 maprange_classes = 0.
 Proof. vm_compute. repeat split. Qed.
